@@ -101,7 +101,9 @@ func c17CreateIn(c *c17Case, seed int64, r *core.Rec, stale map[string][]byte) (
 	root := filepath.Join(workerScratch(), fmt.Sprintf("c17-%d", c17Seq))
 	os.RemoveAll(root)
 	defer os.RemoveAll(root)
-	setDir := filepath.Join(root, "parent", "set")
+	// directory names with characters that mean something to formatters, globbers and shells (they are part of the
+	// index path whenever it is spelled from outside the set directory)
+	setDir := filepath.Join(root, "pa%rent", "se%20t %d")
 	unrelated := filepath.Join(root, "else", "where")
 	os.MkdirAll(unrelated, 0755)
 	var abs []string
